@@ -363,12 +363,14 @@ pub fn consts_json() -> String {
         st.push(format!("[{},{},{},{},{}]", i, b.len(), if b.len() > 32 { b[32] as i32 } else { -1 }, sz, if back.starts_with("ok:") { 1 } else { 0 }));
     }
     format!(
-        "{{\"instructions\":[{}],\"proof_types\":[{}],\"declared\":[{}],\"meta_size\":{},\"program_id\":\"{}\",\"encoded\":[{}],\"encoded_states\":[{}]}}",
+        "{{\"instructions\":[{}],\"proof_types\":[{}],\"declared\":[{}],\"meta_size\":{},\"program_id\":\"{}\",\"program_id_const\":\"{}\",\"check_id_const\":{},\"encoded\":[{}],\"encoded_states\":[{}]}}",
         instrs.join(","),
         ptypes.join(","),
         decl.join(","),
         std::mem::size_of::<ProofContextStateMeta>(),
         hex(solana_zk_sdk::zk_elgamal_proof_program::id().as_ref()),
+        hex(solana_zk_sdk::zk_elgamal_proof_program::ID.as_ref()),
+        solana_zk_sdk::zk_elgamal_proof_program::check_id(&solana_zk_sdk::zk_elgamal_proof_program::ID),
         enc.join(","),
         st.join(",")
     )
